@@ -14,7 +14,7 @@ _LAST = {}
 CLAUSES = {
     "C04": ["true", "tally", "sufficient", "empty:*", "malformed", "exc:*"],
     "C15": ["optimal", "difficulty", "exc:*"],
-    "C14": ["reapply", "vote:*", "reader:*", "exc:*"],
+    "C14": ["reapply", "reapply:*", "vote:*", "reader:*", "exc:*"],
 }
 MC_INV = {"C04": ["OnlyTheWinner", "NenFullSetIsFirstPref"], "C15": ["MinMaxDuality", "DifficultyDefined"],
           "C14": ["NenFullSetIsFirstPref"]}
@@ -36,7 +36,7 @@ class NoAssertionInResult(Exception):
     """the returned list holds something that is not an assertion"""
 
 
-def run_search(tid, cands, profile, winner, fn, hint, total=None):
+def run_search(tid, cands, profile, winner, fn, hint, total=None, with_means=False):
     from shangrla.raire.raire import compute_raire_assertions
     from shangrla.raire.raire_utils import Contest as RC, NEBAssertion, NENAssertion
     from shangrla.raire import sample_estimator as se
@@ -50,6 +50,14 @@ def run_search(tid, cands, profile, winner, fn, hint, total=None):
         _LAST["contest"] = RC("con", list(cands), cands[(len(profile) + total) % len(cands)], total, order=list(hint or []))
     contest = _LAST["contest"]        # the same Contest object serves consecutive searches on the same election
     cvrs = {f"b{k}": {"con": {c: j for j, c in enumerate(b)}} for k, b in enumerate(profile)}
+    # cards carry other contests too - over the same candidate identifiers - and some cards carry only those
+    nextra = (len(profile) * 7 + total) % 4
+    other = list(reversed(cands))
+    for k in range(len(profile)):
+        if (k + len(cands) + total) % 3 == 0:
+            cvrs[f"b{k}"]["zz"] = {c: j for j, c in enumerate(other[: 1 + k % len(other)])}
+    for k in range(nextra):
+        cvrs[f"x{k}"] = {"zz": {c: j for j, c in enumerate(other)}}
     f = se.cp_estimate if fn == "cp" else se.bp_estimate
     try:
         with warnings.catch_warnings():
@@ -66,6 +74,23 @@ def run_search(tid, cands, profile, winner, fn, hint, total=None):
                         "re_tw": int(sum(a.is_vote_for_winner(cv) for cv in cvrs.values())),
                         "re_tl": int(sum(a.is_vote_for_loser(cv) for cv in cvrs.values()))})
         rec["result"] = out
+        # the audit's side of each returned assertion: its assorter's mean over all the cards (those lacking the
+        # contest are not among the cards under audit) must say what the generator's tallies say
+        if out and with_means:
+            from shangrla.core.Audit import Assertion, Audit, Contest as AC, CVR
+            from shangrla.core.NonnegMean import NonnegMean
+            acon = AC.from_dict({"id": "con", "name": "con", "risk_limit": 0.05, "cards": len(profile), "choice_function": "IRV",
+                                 "n_winners": 1, "candidates": list(cands), "winner": [winner],
+                                 "audit_type": Audit.AUDIT_TYPE.CARD_COMPARISON, "test": NonnegMean.alpha_mart,
+                                 "estim": NonnegMean.fixed_alternative_mean, "use_style": True})
+            js = [{"winner": o["w"], "loser": o["l"], "assertion_type": ("WINNER_ONLY" if o["kind"] == "NEB" else "IRV_ELIMINATION"),
+                   "already_eliminated": ("" if o["kind"] == "NEB" else list(o["elim"]))} for o in out]
+            cvr_list = [CVR(id=i_, votes={cn: {c: r + 1 for c, r in v.items()} for cn, v in cv.items()}) for i_, cv in cvrs.items()]
+            for o, j1 in zip(out, js):
+                a1 = next(iter(Assertion.make_assertions_from_json(contest=acon, candidates=list(cands), json_assertions=[j1],
+                                                                   test=NonnegMean.alpha_mart,
+                                                                   estim=NonnegMean.fixed_alternative_mean).values()))
+                o["mean"] = rs(a1.assorter.mean(cvr_list, use_style=True))
     except core.CaseTimeout:
         rec["exc"] = {"type": "Timeout", "site": "raire.py:compute_raire_assertions"}
     except Exception as ex:
@@ -152,7 +177,9 @@ def vote_records(cands):
                 rcv = {"con": {c: j for j, c in enumerate(b)}}
                 rec["raire_w"] = int(ra.is_vote_for_winner(rcv))
                 rec["raire_l"] = int(ra.is_vote_for_loser(rcv))
-                cv = CVR(id="x", votes={"con": {c: j + 1 for j, c in enumerate(b)}})
+                # (the record's keys in any insertion order: a ranking is the values, not the order of the keys)
+                cv = CVR(id="x", votes={"con": dict(sorted(((c, j + 1) for j, c in enumerate(b)),
+                                                           key=lambda kv: (sum(map(ord, str(kv[0]))) * 31 + kv[1] * 7 + len(b)) % 5))})
                 rec["assort"] = rs(aa.assorter.assort(cv))
             except Exception as ex:
                 rec = {"kind": "reader", "tid": rec["tid"], "exc": {"type": type(ex).__name__, "site": core.exc_site(ex)}}
@@ -271,7 +298,7 @@ def run(pid, tier):
             if rng.random() > (0.3 if tier == "quick" else 1.0):
                 continue
             w = rng.choice(cands3)
-            recs.append(run_search(f"s{k}", cands3, prof, w, rng.choice(["cp", "bp"]), None))
+            recs.append(run_search(f"s{k}", cands3, prof, w, rng.choice(["cp", "bp"]), None, with_means=True))
             k += 1
     # two candidates (the smallest contest the statement covers): every multiset of up to 4 partial rankings,
     # each reported winner, both difficulty functions
@@ -299,7 +326,7 @@ def run(pid, tier):
         tot = len(prof) + (0 if j % 3 else rng.choice([1, 2, len(prof) // 2 + 1]))
         fns = rng.sample(["cp", "bp"], 2) if pid in ("C15", "C04") and j % 2 == 0 else [rng.choice(["cp", "bp"])]
         for fi, fn in enumerate(fns):
-            recs.append(run_search(f"b{j}.{fi}", cands, prof, w, fn, hint, total=tot))
+            recs.append(run_search(f"b{j}.{fi}", cands, prof, w, fn, hint, total=tot, with_means=(pid == "C14")))
     if pid == "C15":       # five candidates, no hint: the expansion loop's own best-ancestor bookkeeping only matters here
         cands = ["A", "B", "C", "D", "E"]
         ranks = ranks_by.setdefault(5, all_rankings(cands))
